@@ -5,6 +5,9 @@ import RsMatterVerif.Model.Codec.PlainHdr
 import RsMatterVerif.Model.Codec.ProtoHdr
 import RsMatterVerif.Model.Codec.StatusReport
 import Driver.C17More
+import Driver.C17X509 -- D16d
+import Driver.C17Der
+import Driver.C17Discovery
 import Driver.Util
 /-!
 Driver for C17. One case = one codec (`case <id> <codec>`); every op line is self-contained:
@@ -302,10 +305,16 @@ def step (st : St) (line : String) : St × String :=
     | "status" => (st, stepStatus ws out)
     | "rbuf" => stepRbuf st ws out
     | "wbuf" => stepWbuf st ws out
+    | "derw" => (st, Driver.C17Der.step ws out)  -- D16c: ASN1Writer + CertRef::as_asn1
+    | "adv" => (st, Driver.C17Discovery.stepAdv ws out)   -- D16b: AdvData + RecoveryAdvData, both modelled
+    | "mdns2" => (st, Driver.C17Discovery.stepMdns ws out)  -- D16b: mDNS wire format, modelled
     | k =>
       match Driver.C17More.step k ws out with
       | some r => (st, r)
-      | none => (st, "BAD kind")
+      | none =>
+        match Driver.C17X509.step k ws out with -- D16d: der / dersig / cd / x509 / csr
+        | some r => (st, r)
+        | none => (st, "BAD kind")
 
 def run : IO UInt32 := Driver.runLoop ({} : St) step
 
